@@ -1,14 +1,21 @@
 package c13
 
-// Open findings of property C13 and the switches that keep their patterns out
-// of the generators (BUILDING.md rule 3). The text below is what
-// harness/c13/FINDINGS.md is meant to hold.
+// Findings of property C13 and the switches that kept their patterns out of
+// the generators while they were open (BUILDING.md rule 3). The text below is
+// what harness/c13/FINDINGS.md is meant to hold.
 //
-// # F-C13-pathkey — a module-map name that spells the absolute path of a file module is confused with that file
+// Status: no finding is open. F-C13-pathkey is FIXED in /repo by commit
+// c7ebb65 ("fix: a module-map entry named like a module file's path is
+// confused with that file"): the switch is off, genGraphCase produces the
+// pattern again (layout "mixed", draw "collide"), checkGraph judges it like
+// any other graph, and the two reproducers live in replays/C13/fixed/ (run by
+// TestRegressions, must pass). TestKnownFindings has nothing to report.
+//
+// # F-C13-pathkey (fixed, c7ebb65) — a module-map name that spells the absolute path of a file module was confused with that file
 //
 // Switch: openFindings["F-C13-pathkey"] (generator of TestGraph, layout
-// "mixed"). Replays: replays/C13/open/F-C13-pathkey-*.json, run by
-// TestKnownFindings ("@ROOT@" in them stands for the import dir the harness
+// "mixed"), now false. Replays: replays/C13/fixed/F-C13-pathkey-*.json, run by
+// TestRegressions ("@ROOT@" in them stands for the import dir the harness
 // creates for the case).
 //
 // Input. File import enabled, import dir D containing f1.tengo:
@@ -76,17 +83,17 @@ package c13
 //	...
 //	c.storeCompiledModule(moduleKey, compiledFunc)
 //
-// Handling. While the switch is on, genGraphCase never gives a module-map
-// module the absolute path of a file module as its key; each time it would
-// have, ev.Discard("known:F-C13-pathkey") is counted. TestKnownFindings re-runs
-// both reproducers through checkGraph and reports KNOWN-FINDING while they
-// fail; once they pass it only notes "open finding no longer reproduces"
-// (then: switch off, move the replays to replays/C13/fixed/).
+// Handling while it was open. With the switch on, genGraphCase never gave a
+// module-map module the absolute path of a file module as its key; each time
+// it would have, ev.Discard("known:F-C13-pathkey") was counted, and
+// TestKnownFindings re-ran both reproducers through checkGraph and reported
+// KNOWN-FINDING. Since the repair the switch is off and the replays are
+// regression replays.
 
 const findingPathKey = "F-C13-pathkey"
 
 // openFindings: turning a switch off makes the generator produce the pattern
 // again.
 var openFindings = map[string]bool{
-	findingPathKey: true,
+	findingPathKey: false, // repaired in /repo by c7ebb65; replays under replays/C13/fixed
 }
